@@ -1093,6 +1093,41 @@ def oracle_vector(run, sc, tag, subset, isteps):
             return
 
 
+def toggle_scenario(r, k):
+    """run-time changes of what the configuration fixed: `cv bias b set apply_force off|on` for a few steps, `cv bias b set
+    active off|on`, `cv bias b delete` in the middle of the run, a rejected configuration; 2-3 applying biases sharing 1-2 variables.
+    The pipeline model has apply_force as a constant and no deletion: this family is checked by the python specification (O2),
+    superposition (O1), impulse windows, errors - not by the model."""
+    sc = gen_scenario(r, k, "mix")
+    sc["family"] = "toggle"
+    sc["perm_run"] = False
+    nb = len(sc["biases"])
+    for b in sc["biases"]:
+        if b["kind"] == "G":
+            b["kind"] = "H"
+            b["centers"] = [dy(r, -4, 4, 2) for _ in b["vars"]]
+        b["tsf"] = r.choice([1, 1, 1, 2, 3])     # script-switched biases with factor > 1: the known finding is left to the mix family
+    ev = []
+    deleted = set()
+    for e in sc["events"]:
+        if e[0] == "X":
+            continue
+        if e[0] in ("S", "R") and ev and r.random() < 0.3:
+            j = r.randrange(nb)
+            if j not in deleted:
+                m = r.random()
+                if m < 0.55:
+                    ev.append(("Y", j, r.random() < 0.5))
+                elif m < 0.8 and sc["biases"][j]["tsf"] == 1:
+                    ev.append(("X", j, r.random() < 0.5))
+                elif m < 0.9 and len(deleted) + 1 < nb:
+                    ev.append(("D", j))
+                    deleted.add(j)
+        ev.append(e)
+    sc["events"] = ev
+    return sc
+
+
 def coupling_scenario(r, k):
     """lagged engine forces that include the Colvars forces, a one-atom distanceZ variable with subtractAppliedForce and
     outputTotalForce, two restraints: the total force reported at step t+1 must be the engine's own force of step t,
@@ -1168,7 +1203,7 @@ def run_batch(unit, model, scs, d):
         for t, sub in subsets.items():
             tag = "%d:%s" % (sc["id"], t)
             L += scenario_lines(sc, sub, tag)
-            if all(sc["biases"][j]["kind"] not in ("F", "FA") for j in sub) and sc["family"] not in ("ext", "scripted", "vector") and t != "P":
+            if all(sc["biases"][j]["kind"] not in ("F", "FA") for j in sub) and sc["family"] not in ("ext", "scripted", "vector", "toggle") and t != "P":
                 M.append(model_case(sc, sub))
                 keys.append(tag)
     for sc in scs:
@@ -1230,6 +1265,9 @@ def check(run):
     for _ in range(10 if quick else 300):
         scs.append(vector_scenario(r, k))
         k += 1
+    for _ in range(24 if quick else 600):
+        scs.append(toggle_scenario(r, k))
+        k += 1
     for _ in range(12 if quick else 300):
         scs.append(ext_scenario(r, k))
         k += 1
@@ -1271,7 +1309,7 @@ def check(run):
                 if t == "P":
                     continue
                 sub = impl_order(sc, sub)
-                if any([b["name"] for b in stp["B"]] != ["b%d" % j for j in sub] for stp in isteps):
+                if sc["family"] != "toggle" and any([b["name"] for b in stp["B"]] != ["b%d" % j for j in sub] for stp in isteps):
                     run.mismatch("pipeline:bias-order", {"scenario": sc["id"], "run": t}, [b["name"] for b in isteps[0]["B"]], sub)
                     continue
                 run.dist("family:" + sc["family"])
